@@ -133,7 +133,7 @@ func (v *VMValue) ToJSONRaw(save map[*VMValue]bool) ([]byte, error) {
 			}{fd.Name},
 		})
 	}
-	return nil, nil
+	return nil, errors.New("值错误: 此类型无法序列化")
 }
 
 func (v *VMValue) ToJSON() ([]byte, error) {
@@ -211,6 +211,11 @@ func (v *VMValue) UnmarshalJSON(input []byte) error {
 		}
 		err := json.Unmarshal(input, &v1)
 		if err == nil {
+			for _, i := range v1.Value.List {
+				if i == nil {
+					return errors.New("值错误: 数组元素不能为 null")
+				}
+			}
 			v.Value = NewArrayValRaw(v1.Value.List).Value
 		}
 		return err
@@ -253,8 +258,10 @@ func (v *VMValue) UnmarshalJSON(input []byte) error {
 		if err == nil {
 			if val, ok := builtinValues[v1.Value.Name]; ok {
 				v.Value = val.Value
+				return nil
 			}
-			return nil
+			// 找不到对应的内置函数时，不能留下一个没有函数体的空壳
+			return errors.New("值错误: 未知的内置函数 " + v1.Value.Name)
 		}
 		return err
 	case VMTypeNativeObject:
@@ -272,7 +279,7 @@ func (v *VMValue) UnmarshalJSON(input []byte) error {
 		}
 		return err
 	}
-	return nil
+	return errors.New("值错误: 未知的类型标记")
 }
 
 func VMValueFromJSON(data []byte) (*VMValue, error) {
